@@ -1152,7 +1152,7 @@ class RotationGate(Gate):
         """
         Create a copy of the gate.
         """
-        return RotationGate(self.ntheta, self.qubit)
+        return RotationGate(np.copy(self.ntheta), self.qubit)
 
     def __eq__(self, other):
         """
@@ -3196,7 +3196,7 @@ class GeneralGate(Gate):
         """
         Create a copy of the gate.
         """
-        gate = GeneralGate(self.mat, self.nwires)
+        gate = GeneralGate(np.copy(self.mat), self.nwires)
         gate.on(self.prtcl)
         return gate
 
